@@ -15,7 +15,7 @@ use crate::walk::{ans_walk, merge_accs, range_is_inverted, range_walk, Acc, AnsN
 use constriction::stream::model::{DefaultContiguousCategoricalEntropyModel, DefaultLeakyQuantizer};
 use constriction::stream::queue::{DefaultRangeDecoder, DefaultRangeEncoder, RangeEncoder};
 use constriction::stream::stack::{AnsCoder, DefaultAnsCoder};
-use constriction::stream::{Decode, Encode};
+use constriction::stream::{Code, Decode, Encode};
 use probability::distribution::Gaussian;
 use serde_json::json;
 
@@ -46,6 +46,27 @@ fn ans_visit<C: Cfg>(n: &AnsNode<C>, acc: &mut Acc) {
             format!("init {:x?} ops {:?}: implementation {:x?}, reference {:x?}", n.exports[0], n.ops, got, want),
             json!({"kind": "ans_history", "cfg": C::NAME, "init": words_json(&n.exports[0]), "ops": ops_json(n.ops)}),
         );
+    }
+    // reading direction: the REFERENCE's words must load into exactly the coder that wrote them (a reader that
+    // misparses a stream written by another conforming implementation breaks the format as much as a writer)
+    {
+        let words: Vec<C::W> = want.iter().map(|&w| C::w(w)).collect();
+        match AnsCoder::<C::W, C::S>::from_compressed(words) {
+            Ok(c) => {
+                if to_u128(c.bulk()) != to_u128(n.coder.bulk()) || c.state().into() != n.coder.state().into() {
+                    acc.violation(format!("AnsCoder::from_compressed | {} | the reference stream is not read back into the coder that wrote it", C::NAME),
+                        format!("init {:x?} ops {:?}: words {:x?} load as (bulk {:x?}, state {:#x}), the writer is (bulk {:x?}, state {:#x})", n.exports[0], n.ops, want,
+                            to_u128(c.bulk()), c.state().into(), to_u128(n.coder.bulk()), n.coder.state().into()),
+                        json!({"kind": "ans_history", "cfg": C::NAME, "init": words_json(&n.exports[0]), "ops": ops_json(n.ops)}));
+                }
+            }
+            Err(_) => acc.violation(format!("AnsCoder::from_compressed | {} | the reference stream is refused", C::NAME),
+                format!("init {:x?} ops {:?}: words {:x?}", n.exports[0], n.ops, want), json!({"kind": "ans_history", "cfg": C::NAME, "init": words_json(&n.exports[0]), "ops": ops_json(n.ops)})),
+        }
+    }
+    if let Some(d) = crate::walk::ans_inspection_changes::<C>(n.coder) {
+        acc.violation(format!("AnsCoder | {} | words shown by / emitted after an inspection differ from the specified stream", C::NAME),
+            format!("init {:x?} ops {:?}: {d}", n.exports[0], n.ops), json!({"kind": "ans_history", "cfg": C::NAME, "init": words_json(&n.exports[0]), "ops": ops_json(n.ops)}));
     }
     if acc.samples.is_empty() && n.ops.len() >= 4 && n.coder.bulk().len() >= 2 {
         acc.samples.push(json!({"coder": "ans", "cfg": C::NAME, "ops": ops_json(n.ops), "words_impl_eq_ref": words_json(&got)}));
@@ -99,6 +120,10 @@ fn range_visit<C: Cfg>(n: &RangeNode<C>, acc: &mut Acc) {
     }
     for (i, d) in bad {
         acc.violation(i, d, json!({"kind": "range_history", "cfg": C::NAME, "letters": letters_json(n.hist)}));
+    }
+    if let Some(d) = crate::walk::range_inspection_changes::<C>(n.enc) {
+        acc.violation(format!("RangeEncoder | {} | words shown by / emitted after an inspection differ from the specified stream", C::NAME),
+            format!("history {:?}: {d}", n.hist), json!({"kind": "range_history", "cfg": C::NAME, "letters": letters_json(n.hist)}));
     }
     if acc.samples.is_empty() && n.hist.len() >= 4 && range_is_inverted::<C>(n.enc).is_some() {
         acc.samples.push(json!({"coder": "range", "cfg": C::NAME, "history": letters_json(n.hist), "words_impl_eq_ref": words_json(&want)}));
